@@ -1559,6 +1559,9 @@ static ASTNode *parse_primary(Stage1Parser *p) {
                 }
             }
 
+            Token *unsafe_close = current_token(p);
+            int unsafe_end_line = unsafe_close ? unsafe_close->line : 0;
+            int unsafe_end_column = unsafe_close ? unsafe_close->column : 0;
             if (!expect(p, TOKEN_RBRACE, "Expected '}' after unsafe block")) {
                 free(statements);
                 return NULL;
@@ -1567,6 +1570,8 @@ static ASTNode *parse_primary(Stage1Parser *p) {
             node = create_node(AST_UNSAFE_BLOCK, line, column);
             node->as.unsafe_block.statements = statements;
             node->as.unsafe_block.count = count;
+            node->end_line = unsafe_end_line;
+            node->end_column = unsafe_end_column;
             return node;
         }
 
@@ -2626,6 +2631,9 @@ static ASTNode *parse_block(Stage1Parser *p) {
     // fprintf(stderr, "DEBUG: [block_%d depth=%d] Expecting closing '}' at line %d\n",
     //         my_block_id, p->recursion_depth, end_tok ? end_tok->line : 0);
     
+    Token *close_tok = current_token(p);
+    int end_line = close_tok ? close_tok->line : 0;
+    int end_column = close_tok ? close_tok->column : 0;
     if (!expect(p, TOKEN_RBRACE, "Expected '}'")) {
         free(statements);
         p->recursion_depth--;
@@ -2638,6 +2646,8 @@ static ASTNode *parse_block(Stage1Parser *p) {
     ASTNode *node = create_node(AST_BLOCK, line, column);
     node->as.block.statements = statements;
     node->as.block.count = count;
+    node->end_line = end_line;
+    node->end_column = end_column;
     p->recursion_depth--;
     return node;
 }
@@ -2905,7 +2915,10 @@ static ASTNode *parse_statement(Stage1Parser *p) {
 
 p->recursion_depth--;
 
-                        if (!expect(p, TOKEN_RBRACE, "Expected '}' after unsafe block")) {
+            Token *unsafe_close = current_token(p);
+            int unsafe_end_line = unsafe_close ? unsafe_close->line : 0;
+            int unsafe_end_column = unsafe_close ? unsafe_close->column : 0;
+            if (!expect(p, TOKEN_RBRACE, "Expected '}' after unsafe block")) {
                 free(statements);
                 return NULL;
             }
@@ -2913,6 +2926,8 @@ p->recursion_depth--;
             node = create_node(AST_UNSAFE_BLOCK, line, column);
             node->as.unsafe_block.statements = statements;
             node->as.unsafe_block.count = count;
+            node->end_line = unsafe_end_line;
+            node->end_column = unsafe_end_column;
             return node;
         }
 
@@ -3533,6 +3548,11 @@ static ASTNode *parse_match_expr(Stage1Parser *p) {
             free(pattern_bindings[count]);
             break;
         }
+        if (arm_bodies[count]->end_line == 0 && current_token(p)) {
+            /* An expression arm: its binding's scope ends where the next token starts */
+            arm_bodies[count]->end_line = current_token(p)->line;
+            arm_bodies[count]->end_column = current_token(p)->column;
+        }
         
         count++;
         
@@ -3594,6 +3614,8 @@ static ASTNode *clone_ast_node(const ASTNode *node) {
     if (!cloned) {
         return NULL;
     }
+    cloned->end_line = node->end_line;
+    cloned->end_column = node->end_column;
 
     switch (node->type) {
         case AST_NUMBER:
